@@ -254,7 +254,7 @@ func (v *vc) intrinsic(fr *frame, st *state, instr ssa.Instruction, name string,
 		return fmt.Sprintf("(mk-iface %d %s)", v.sc.typeID(types.NewPointer(types.Typ[types.String])), ref)
 	}
 	site := v.callSite(instr)
-	safety := !(fr.fc != nil && fr.fc.nosafety)
+	safety := !(v.noSafety(fr))
 	switch name {
 	case "fmt.Errorf", "errors.New", "github.com/pkg/errors.New", "github.com/pkg/errors.Errorf", "github.com/pkg/errors.Wrap", "github.com/pkg/errors.Wrapf":
 		trust()
@@ -263,6 +263,15 @@ func (v *vc) intrinsic(fr *frame, st *state, instr ssa.Instruction, name string,
 	case "fmt.Sprintf", "fmt.Sprint", "fmt.Sprintln", "strconv.Itoa", "strconv.FormatInt", "strconv.FormatUint", "strconv.Quote", "(*errors.errorString).Error", "(error).Error", "path/filepath.Join", "strings.Join", "strings.ToLower", "strings.ToUpper", "strings.TrimSpace":
 		trust()
 		set(v.havocResults(st, sig, "str")...)
+		return true
+	case "github.com/gogo/protobuf/proto.Int32", "github.com/gogo/protobuf/proto.Int64", "github.com/gogo/protobuf/proto.Uint32", "github.com/gogo/protobuf/proto.Uint64",
+		"github.com/gogo/protobuf/proto.Bool", "github.com/gogo/protobuf/proto.String", "github.com/gogo/protobuf/proto.Float64":
+		// proto.T(v) returns a pointer to a fresh copy of v
+		trust()
+		et := sig.Params().At(0).Type()
+		ref := v.alloc(st, "protoval")
+		v.store(st, &addr{kind: aCell, base: ref, typ: et}, args[0])
+		set(ref)
 		return true
 	case "(*time.Time).UnmarshalBinary":
 		// decodes 15 or 16 bytes into the receiver; on error the receiver is unspecified
@@ -512,6 +521,10 @@ func (v *vc) intrinsicMods(fr *frame, name string, c *ssa.CallCommon) (bool, []s
 	switch name {
 	case "fmt.Errorf", "errors.New", "github.com/pkg/errors.New", "github.com/pkg/errors.Errorf", "github.com/pkg/errors.Wrap", "github.com/pkg/errors.Wrapf":
 		return true, []string{"alloc"}
+	case "github.com/gogo/protobuf/proto.Int32", "github.com/gogo/protobuf/proto.Int64", "github.com/gogo/protobuf/proto.Uint32", "github.com/gogo/protobuf/proto.Uint64",
+		"github.com/gogo/protobuf/proto.Bool", "github.com/gogo/protobuf/proto.String", "github.com/gogo/protobuf/proto.Float64":
+		h, _ := v.cellHeap(c.Signature().Params().At(0).Type())
+		return true, []string{"alloc", h}
 	case "encoding/binary.Read":
 		if mi, ok := c.Args[2].(*ssa.MakeInterface); ok {
 			m := newModSet()
